@@ -18,6 +18,10 @@ import (
 	"fmt"
 	"os"
 	"path/filepath"
+	"sync"
+	"time"
+
+	"github.com/ethereum/go-ethereum/triedb/pathdb"
 
 	"verif/harness/cmd/c17/pdb"
 	tl "verif/harness/tracelib"
@@ -39,6 +43,12 @@ func newRunner(shape pdb.Shape, cfg pdb.Config, dir string, tr *pdb.Trace, sum *
 		if ev["op"] == "Update" && ev["res"] == "fail" && ix["inited"] == true && ix["last"] == -1 {
 			ev["kf"] = "index-metadata-deleted"
 			sum.Count("KF1:index-metadata-deleted")
+		}
+		// TODO-KNOWN-FINDING (C18-KF2): rollback while the initial indexing run has not completed
+		// and the index ends one history below the disk layer fails inside indexIniter.run.
+		if ev["op"] == "Recover" && ev["ok"] == false && ev["can"] == true && ix["on"] == true && ix["inited"] == false {
+			ev["kf"] = "shorten-while-initialising"
+			sum.Count("KF2:shorten-while-initialising")
 		}
 	}
 	rn.WaitIndexed()
@@ -161,6 +171,82 @@ func runRandom(tracePath, scratch string, seed int64, ntraces, steps int, sum *t
 	sum.Rule = "seeded random histories with history limits, rollbacks and other forks, clean reopen (indexing switched on late), historic reads of every key at known roots; distinct = distinct operation/outcome sequences"
 }
 
+// runGate drives the partially-indexed states deterministically: histories are produced
+// with indexing off, the database is reopened with indexing on while a gate (blocking
+// verif hook in indexIniter.index) holds the background indexer before its first history;
+// reads must be refused, new histories extend the target, then the gate opens, the run
+// finishes one history short of the target, and a rollback of that last history follows.
+func runGate(tracePath, scratch string, seed int64, ntraces int, sum *tl.Summary) {
+	r := tl.Rand(seed)
+	tr := pdb.NewTrace(tracePath)
+	defer tr.Close()
+	for t := 0; t < ntraces; t++ {
+		shape := pdb.Shape{NAcc: 1 + r.Intn(2), NSlot: r.Intn(2), Counter: true}
+		cfg := pdb.Config{MaxDiff: 1 + r.Intn(2), HistLimit: []uint64{0, 0, 4}[r.Intn(3)], BufSize: []int{0, 1 << 22}[r.Intn(2)], Cancun: r.Intn(2) == 0}
+		gate := make(chan struct{})
+		var once sync.Once
+		open := func() { once.Do(func() { close(gate) }) }
+		pathdb.VerifHook = func(ev string, kv ...any) {
+			if ev == "index-step" {
+				<-gate
+			}
+		}
+		rn := newRunner(shape, cfg, filepath.Join(scratch, fmt.Sprintf("gate-%d", t)), tr, sum, r.Int63(), tl.M{"src": "gate", "shape": shape, "dbcfg": cfg})
+		h := 2 + r.Intn(5)
+		for i := 0; i < h+cfg.MaxDiff; i++ {
+			roots := rn.ChainRoots()
+			n, touch, recreate := rn.RandomWorld(rn.E.WorldOfRoot(roots[len(roots)-1]), 2)
+			rn.Update(len(roots)-1, n, touch, recreate)
+		}
+		rn.NoWaitIndex = true
+		rn.ReopenWithIndex(len(rn.ChainRoots())-1, true) // indexer blocked at its first history
+		readSome(rn, 3)
+		extra := 1 + r.Intn(2)
+		for i := 0; i < extra; i++ { // extend the target while the indexer is busy
+			roots := rn.ChainRoots()
+			n, touch, recreate := rn.RandomWorld(rn.E.WorldOfRoot(roots[len(roots)-1]), 2)
+			rn.Update(len(roots)-1, n, touch, recreate)
+		}
+		_, target, _, _ := rn.E.PDB.VerifHistDisk()
+		open()
+		// wait until the run that was blocked has finished (it captured the old target)
+		deadline := time.Now().Add(10 * time.Minute)
+		for {
+			last, ok := rn.E.PDB.VerifHistIndexLast(false)
+			if ok && last+uint64(extra) >= target {
+				break
+			}
+			if time.Now().After(deadline) {
+				tl.Fatal("gated indexer made no progress")
+			}
+			time.Sleep(time.Millisecond)
+		}
+		rn.IndexRunEvent(false)
+		readSome(rn, 3)
+		// roll back the newest history (or two)
+		var cands []pdb.World
+		for _, wi := range rn.E.Reg.Order {
+			if id := rn.E.StateID(wi.Root); id >= int(target)-extra && id < int(target) {
+				if ok, _ := rn.E.TDB.Recoverable(wi.Root); ok {
+					cands = append(cands, wi.W)
+				}
+			}
+		}
+		if len(cands) > 0 && rn.Recover(cands[r.Intn(len(cands))]) {
+			rn.IndexRunEvent(true)
+			readSome(rn, 1000)
+		}
+		pathdb.VerifHook = nil
+		open()
+		rn.Close()
+		sum.Traces++
+		sum.Evaluations++
+		sum.Distinct++
+	}
+	sum.Steps = tr.N
+	sum.Rule = "gated scenarios: indexing switched on over existing histories with the background indexer held at its first history, reads refused, target extended, run released, newest histories rolled back"
+}
+
 func main() {
 	mode := flag.String("mode", "random", "random")
 	trace := flag.String("trace", "trace.ndjson", "output trace")
@@ -176,6 +262,8 @@ func main() {
 	switch *mode {
 	case "random":
 		runRandom(*trace, scratch, seed, *n, *steps, sum)
+	case "gate":
+		runGate(*trace, scratch, seed, *n, sum)
 	default:
 		tl.Fatal("bad mode")
 	}
